@@ -20,6 +20,7 @@ pub fn check(tier: Tier) -> Check {
         parts.push(Part::new("C14/drop", json!({"depth": d}), k, tier.pick(40, 600)));
     }
     Check {
+        also_rel: false,
         property: "C14",
         level: "model_checking",
         rule: "the Context is dropped at every point of every bounded history of operations and subscriptions (operations queued-but-unpolled via held tasks, awaiting acknowledgement, between the QoS 2 phases, acknowledged-but-unpolled; streams with and without buffered messages), then up to two more operations are started; under the strict-waker executor every future must complete / every stream must drain and end; non-trivial = ContextExited was delivered to a pending operation or a stream ended".into(),
